@@ -104,7 +104,19 @@ def post_target(ctx, rec, with_grad=True):
     if rec["kind"] == "post_deconv":
         prec.update(model="deconv", psf=["gauss", "moffat", "defocus"][rec["zseed"] % 3],
                     dbc=["periodic", "zero", "mirror", "reflect", "nearest"][rec["zseed"] % 5])
-    if rec["kind"] == "post_const":
+    if rec["kind"] == "post_fd":
+        # a posterior with a gradient-free nonlinear model; its gradient is the library's finite-difference approximation
+        # (enable_FD on the target itself): what users do to run gradient-based samplers on PDE problems
+        def mk_fd():
+            A, y = _lin_data(prec)
+            x = _prior(prec)
+            Mo = Model(lambda x: np.tanh(A @ np.asarray(x, float).reshape(-1)), range_geometry=A.shape[0], domain_geometry=rec["dim"])
+            P_ = Posterior(Gaussian(Mo(x), 0.5, name="y").to_likelihood(y), x)
+            P_.enable_FD(epsilon=1e-7)
+            return P_, None
+        post, _ = mk_fd()
+        twin, _ = mk_fd()
+    elif rec["kind"] == "post_const":
         # the posterior is what a hierarchical joint reduces to once data and hyper-parameter are fixed: it carries the
         # evaluated hyper-prior as an additive constant (logd = logpdf + constant)
         def mk():
@@ -120,7 +132,12 @@ def post_target(ctx, rec, with_grad=True):
         twin, _ = lin_posterior(Ctx(0), prec)
     real_logd, real_grad = post.logd, post.gradient
     ref_logd = lambda x: float(np.ravel(np.asarray(twin.logd(np.asarray(x, float).reshape(-1)), float))[0])
-    ref_grad = lambda x: np.asarray(twin.gradient(np.asarray(x, float).reshape(-1)), float).reshape(-1)
+    ref_grad = lambda x: np.array(twin.gradient(np.asarray(x, float).reshape(-1)), float, copy=True).reshape(-1)
+    if rec["kind"] == "post_fd":
+        # the finite-difference gradient evaluates the log-density itself: it is taken from a third, un-probed build so that
+        # these internal evaluations do not appear as target evaluations of the sampler
+        inner, _ = mk_fd()
+        real_grad = inner.gradient
     p_logd = Probe(ctx, "logd", lambda x: real_logd(x))
     p_grad = Probe(ctx, "grad", lambda x: real_grad(x)) if with_grad else None
     post.logd = p_logd
@@ -153,6 +170,18 @@ def _geom_post(rec):
         r_ = np.ravel(np.asarray(r_, float))
         c_ = np.broadcast_to(c_, r_.shape)
         return float(-0.5 * np.sum(np.log(2 * np.pi * c_)) - 0.5 * np.sum(r_ * r_ / c_))
+    if rec["kind"] == "post_udl":
+        # user-defined likelihood whose callables hand out PERSISTENT arrays (linear log-likelihood b.x with the constant
+        # gradient b): legal, and nothing may write into b.  Reference density and gradient in closed form.
+        from cuqi.likelihood import UserDefinedLikelihood
+        b_ = rs.randn(n) * 0.7
+        b_ref = b_.copy()
+        x = Gaussian(np.zeros(n), cov, name="x")
+        lik = UserDefinedLikelihood(dim=n, logpdf_func=lambda x: float(b_ @ np.asarray(x, float).reshape(-1)),
+                                    gradient_func=lambda x: b_, geometry=x.geometry)
+        ref = lambda v: float(b_ref @ np.asarray(v, float).reshape(-1)) + lg(v, cov)
+        ref.grad = lambda v: b_ref - np.asarray(v, float).reshape(-1) / cov
+        return Posterior(lik, x), ref
     if rec["kind"] == "post_pde":
         # forward model behind the PDE interface: -u'' = x on a grid of n nodes, the solution is observed at the nodes
         from cuqi.pde import SteadyStateLinearPDE
@@ -185,20 +214,27 @@ def _geom_post(rec):
     return Posterior(lik, x), ref
 
 
-def geom_post_target(ctx, rec):
+def geom_post_target(ctx, rec, with_grad=False):
     post, ref = _geom_post(rec)
     real_logd = post.logd
     p_logd = Probe(ctx, "logd", lambda x: real_logd(x))
     post.logd = p_logd
-    return post, {"logd": p_logd, "grad": None, "ref_logd": ref, "ref_grad": None}
+    p_grad = None
+    if with_grad and hasattr(ref, "grad"):
+        real_grad = post.gradient
+        p_grad = Probe(ctx, "grad", lambda x: real_grad(x))
+        post.gradient = p_grad
+    return post, {"logd": p_logd, "grad": p_grad, "ref_logd": ref, "ref_grad": getattr(ref, "grad", None)}
 
 
 def ud_target(ctx, rec, with_grad=True):
     """UserDefinedDistribution whose callables are probes.  rec: {kind, dim, zseed}."""
-    if rec["kind"] in ("post", "post_const", "post_deconv"):
+    if rec["kind"] in ("post", "post_const", "post_deconv", "post_fd"):
         return post_target(ctx, rec, with_grad)
     if rec["kind"] in ("post_step", "post_mapped", "post_pde"):
         return geom_post_target(ctx, rec)
+    if rec["kind"] == "post_udl":
+        return geom_post_target(ctx, rec, with_grad)
     logp, grad = ref_density(rec["kind"], rec["dim"], rec["zseed"])
     p_logd = Probe(ctx, "logd", logp)
     p_grad = Probe(ctx, "grad", grad) if with_grad else None
@@ -345,7 +381,8 @@ def gen_exp_scenario(r, kind=None, dim_max=5):
     t, k = sc["target"], sc["knobs"]
     ip = [round(r.uniform(-1, 1), 3) for _ in range(dim)]
     if kind in ("MH", "CWMH", "ULA", "MALA", "NUTS"):
-        t["kind"] = r.choice(DENSITY_KINDS + ["post", "post_const", "post_deconv"] + (["boxed", "boxed"] if kind in ("MH", "CWMH", "MALA") else [])
+        t["kind"] = r.choice(DENSITY_KINDS + ["post", "post_const", "post_deconv"] + (["post_fd", "post_udl"] if kind in ("MALA", "NUTS", "ULA") else [])
+                             + (["boxed", "boxed"] if kind in ("MH", "CWMH", "MALA") else [])
                              + (["post_step", "post_mapped", "post_pde"] if kind in ("MH", "CWMH") else []))
         if t["kind"] == "boxed" and kind in ("MH", "CWMH") and r.random() < 0.4:
             ip = [round(v * 6, 3) for v in ip]            # possibly a start value of zero density (outside the support)
